@@ -7,7 +7,13 @@ Correspondence: `dstate` with apply_chemostats, `dxdtf`, `apply_reaction`, `eule
 Oracle on the real code: (i) every flagged entry of every sample of Euler / tau-leap / Gillespie trajectories equals sample 0
 bitwise; (ii) kinetics / dxdtf derivative of a flagged entry is exactly 0 and of every other entry equals the rate law
 (computed from the flagged amounts too); (iii) apply_reaction skips exactly the flagged entries; (iv) with
-apply_chemostats=False the flags are ignored.
+apply_chemostats=False the flags are ignored; (v) Euler runs whose chemostated entries hold extreme quantities (subnormal doubles,
+values around the smallest normal double, 1e-280 … 1e-12, 1e30 … 1e140, either sign; two driving schedules) judged by (i), by the
+rate law on the free entries and by one model `euler_step`; (vi) ONE engine object and ONE script object run several times with
+the script's system edited in place in between (set_chemostat by index / label, item assignment into `chemostats`, a new map,
+reset_chemostats, set_state; optionally another script of the same shape simulated in between): every run judged by (i) with the
+flags tracked by the harness, by the rate law (Euler, + model `euler_step` on the current marshalling) and against the same
+simulation made from scratch (Props/C03.lean `*_obeys_edited_map`).
 """
 import math
 from fractions import Fraction
@@ -34,7 +40,8 @@ GEN_GROUPS = ["IndexPy", "EngineCpp", "KineticsPy"]
 RULE = ("random systems as in C01 with chemostat flags set globally (species chstt), per environment (chstt dict) and per cell "
         "(set_chemostat / chemostats array) on every species index (never only the first) and every cell; kinetics with "
         "apply_chemostats True/False, make_dxdtf on size-1 systems, apply_reaction with n in {1,-1,2,0.5}, trajectories of all "
-        "three engines with on_iteration sampling; a case is one (system, path) evaluation; non-trivial when at least one entry "
+        "three engines with on_iteration sampling; small directed systems whose chemostated entries hold subnormal / tiny / huge quantities "
+        "(Euler, iterate and t_sample schedules); histories run / edit the map in place / run again on one engine and one script; a case is one (system, path) evaluation; non-trivial when at least one entry "
         "is flagged and at least one is not; distinct by (system fingerprint, flags, path)")
 ASSUMPTIONS = C1.ASSUMPTIONS + ["chemostat flags are 0/1 (what set_chemostat / the species chstt setter store)"]
 TRUSTED = C1.TRUSTED + ["RNG draw log of the shimmed engine build (harness/shim) for the step replays"]
@@ -811,11 +818,378 @@ def two_simulations(ctx):
                           "it in the process" % (option, kind), dict(case, order="AB vs B"), impl=b_after_a[-1], expected=b_first[-1])
 
 
+# ------------------------------------------------------------------------------------------------ small directed systems
+def mini_system(kind, ns, n, f, p, k, Ds):
+    """description + physics (in the engine's default units µm / s / molecule: cell volume 1, faces of surface 1 at distance 1)
+    of a one-environment system: n cells in a row (grid n x 1 x 1 or a path graph), species f -> species p with the first-order
+    constant k (/s), diffusion coefficients Ds (µm2/s).  Every factor of the rate law is O(1): no intermediate product of the
+    engine's arithmetic leaves the range of the values themselves."""
+    labels = L.LABELS[:ns]
+    species = [{"label": lab, "D": float(Ds[j]), "density": 0} for j, lab in enumerate(labels)]
+    net = {"species": species, "reactions": [{"eq": "%s -> %s" % (labels[f], labels[p]), "k+": float(k)}]}
+    if kind == "grid":
+        space = {"type": "grid", "w": n, "h": 1, "d": 1}
+        pspace = {"kind": "grid", "w": n, "h": 1, "d": 1, "px": False, "py": False, "pz": False}
+    else:
+        space = {"type": "graph", "nodes": [{} for _ in range(n)], "edges": [{"nodes": [i, i + 1]} for i in range(n - 1)]}
+        pspace = {"kind": "graph", "edges": [(i, i + 1, Fraction(1), Fraction(1)) for i in range(n - 1)]}
+    sub, prod = [0] * ns, [0] * ns
+    sub[f], prod[p] = 1, 1
+    phys = {"ns": ns, "n": n, "labels": labels, "reacs": [{"sub": sub, "prod": prod, "kf": [Fraction(k)], "kr": [Fraction(0)]}],
+            "env": [0] * n, "vol": [Fraction(1)] * n, "edge": [Fraction(1)] * n, "D": [[Fraction(d)] for d in Ds], "space": pspace}
+    return {"network": net, "space": space}, phys
+
+
+def flagged_constant(ss, chem):
+    """oracle (i): the first (sample, entry) at which a flagged entry differs from sample 0, or None"""
+    for k in range(1, len(ss)):
+        for e in range(len(chem)):
+            if chem[e] and not ss[k][1][e] == ss[0][1][e]:
+                return (k, e)
+    return None
+
+
+def euler_free_law(phys, chem, ss, dt, steps=3):
+    """free entries of an Euler trajectory recorded at every iteration: x_{k+1} = x_k + dt*rate(x_k) in the units of `phys`
+    (rate computed from the flagged amounts too).  An entry none of whose terms is non-zero must be kept exactly; entries whose
+    terms all lie below 1e-280 are not judged (gradual underflow of the doubles).  Returns (step, entry, got, expected) or None"""
+    n, ns = phys["n"], phys["ns"]
+    for kstep in range(min(len(ss) - 1, steps)):
+        if not all(math.isfinite(v) and abs(v) < 1e150 for e, v in enumerate(ss[kstep][1] + ss[kstep + 1][1]) if not chem[e % (ns * n)]):
+            return None
+        x0 = [Fraction(v) for v in ss[kstep][1]]
+        orc = L.oracle_rate(phys, x0)
+        for e in range(ns * n):
+            if chem[e]:
+                continue
+            exp, mag = x0[e] + dt * orc[e][0], abs(x0[e]) + dt * orc[e][1]
+            got = ss[kstep + 1][1][e]
+            if orc[e][1] == 0:
+                if not got == ss[kstep][1][e]:
+                    return (kstep, e, got, ss[kstep][1][e])
+            elif mag < Fraction(1, 10 ** 280):
+                continue
+            elif not close(got, exp, mag, rel=TOL):
+                return (kstep, e, got, float(exp))
+    return None
+
+
+# ------------------------------------------------------------------------------------------------ extreme magnitudes
+def draw_extreme(rng):
+    """a legal quantity far from 1: subnormal, just above / below the smallest normal double, 'negligible', huge; either sign"""
+    cls = rng.choice(["subnormal", "subnormal", "tiny", "tiny", "small", "huge"])
+    if cls == "subnormal":
+        v = rng.choice([5e-324, rng.randrange(1, 2 ** 20) * 5e-324, rng.randrange(2 ** 30, 2 ** 52) * 5e-324])
+    elif cls == "tiny":
+        v = rng.uniform(1, 10) * 10.0 ** rng.randint(-308, -285)
+    elif cls == "small":
+        v = rng.uniform(1, 10) * 10.0 ** rng.randint(-280, -12)
+    else:
+        v = rng.uniform(1, 10) * 10.0 ** rng.randint(30, 140)
+    if v == 0:
+        v = 5e-324
+    return cls, (v if rng.random() < 0.75 else -v)
+
+
+def extreme_case(rng, kind):
+    ns, n = rng.choice([2, 3]), rng.choice([2, 3, 4])
+    f = rng.randrange(ns)
+    p = (f + 1) % ns
+    Ds = [rng.choice([0, 1, 0.5]) for _ in range(ns)]
+    inert = None
+    if ns == 3:                      # a species that neither reacts nor moves: its free entries must be kept exactly
+        inert = (f + 2) % ns
+        Ds[inert] = 0
+    chem, vals, classes = [0] * (ns * n), [float(rng.choice([0, 1, 2, 3, 5, 8, 20])) for _ in range(ns * n)], []
+    for s in range(ns):
+        cells = list(range(n))
+        rng.shuffle(cells)
+        nflag = rng.choice([1, 1, 2, n]) if s != inert else rng.choice([0, 1])
+        for c in cells[:nflag]:      # flagged entries (every species index): extreme values
+            cls, v = draw_extreme(rng)
+            chem[s * n + c], vals[s * n + c] = 1, v
+            classes.append(cls)
+        if s == inert:
+            for c in cells[nflag:]:  # free but inert entries: extreme values too
+                vals[s * n + c] = draw_extreme(rng)[1]
+    if all(chem):
+        chem[p * n + rng.randrange(n)] = 0
+    schedule = rng.choice(["iterate", "t_sample"])
+    return {"kind": "extreme", "space": kind, "ns": ns, "n": n, "flagged_species": f, "product": p, "k": rng.choice([0.5, 1, 2]), "Ds": Ds,
+            "chem": chem, "vals": vals, "classes": classes, "schedule": schedule, "nsteps": rng.choice([2, 5, 9]),
+            "set_by": rng.choice(["array", "set_chemostat"])}
+
+
+def extreme_eval(case, ctx=None):
+    """one Euler run of a small system whose chemostated entries hold extreme quantities, driven either iteration by iteration
+    (every iteration recorded) or by run() against a t_sample list; returns (holds, what, detail, correspondence-op or None)"""
+    import strengths as st
+    desc, phys = mini_system(case["space"], case["ns"], case["n"], case["flagged_species"], case["product"], case["k"], case["Ds"])
+    system = L.build_system(desc)
+    system.state = list(case["vals"])
+    chem = list(case["chem"])
+    if case["set_by"] == "array":
+        system.chemostats = list(chem)
+    else:
+        system.reset_chemostats()
+        for e, v in enumerate(chem):
+            if v:
+                system.set_chemostat(e // case["n"], e % case["n"], 1)
+    dt, nsteps = Fraction(1, 64), case["nsteps"]
+    if case["schedule"] == "iterate":
+        script, traj, _ = run_engine(system, "euler", L.DEFAULT_SYS, dt, nsteps, 1, False)
+    else:
+        ts = sorted(set([0, 1, nsteps // 2 + 1, nsteps]))
+        script = st.RDScript(system, t_sample=[float(dt * t) for t in ts], time_step=float(dt), rng_seed=1)
+        eng = common.load_engine("euler", "plain")
+        eng.setup(script)
+        guard = 0
+        while eng.run(7) and guard < 1000:
+            guard += 1
+        traj = eng.get_output()
+        eng.finalize()
+    ss = engine_io.samples(traj)
+    detail = {"first": ss[0][1], "last": ss[-1][1], "chem": chem, "samples": len(ss)}
+    op = None
+    if case["schedule"] == "iterate" and len(ss) >= 2:
+        arr = engine_io.system_arrays(script, False)
+        op = ({"op": "euler_step", "eng": engine_io.eng_json(arr, edge=(Fraction(1) if case["space"] == "grid" else [Fraction(1)] * case["n"])),
+               "x": [rstr(v) for v in ss[0][1]], "dt": rstr(float(script.time_step.convert(arr["us"]).value))}, ss[0][1], ss[1][1])
+    if len(ss) < 2:
+        return False, "the run recorded %d sample(s)" % len(ss), detail, op
+    bad = flagged_constant(ss, chem)
+    if bad:
+        k, e = bad
+        detail.update(sample=k, e=e)
+        return False, ("the chemostated entry %d (species %d, cell %d) holds %r in sample 0 but %r in sample %d" %
+                       (e, e // case["n"], e % case["n"], ss[0][1][e], ss[k][1][e], k)), detail, op
+    if case["schedule"] == "iterate":
+        bad = euler_free_law(phys, chem, ss, dt)
+        if bad:
+            detail.update(step=bad[0], e=bad[1], expected=bad[3])
+            return False, "free entry %d is %r in sample %d, x0 + dt*rate(x0) = %r" % (bad[1], bad[2], bad[0] + 1, bad[3]), detail, op
+    return True, None, detail, op
+
+
+def extreme_magnitudes(ctx, rounds):
+    """chemostated entries holding quantities far from 1 (subnormal doubles, values around the smallest normal double, 1e-280 …
+    1e-12, 1e30 … 1e140, either sign) in Euler runs on grid and graph, two driving schedules; oracle (i) on every sample, the rate
+    law on the free entries, one model step from sample 0"""
+    ops, meta = [], []
+    for r in range(rounds):
+        for kind in ("grid", "graph"):
+            case = extreme_case(ctx.rng, kind)
+            try:
+                ok, what, detail, op = extreme_eval(case)
+            except Exception as ex:  # noqa
+                ctx.violation("chem-extreme:raises", "Euler run raised %s" % type(ex).__name__, case, impl=type(ex).__name__)
+                continue
+            kept = [e for e, c in enumerate(case["chem"]) if c and detail["first"][e] != 0]
+            ctx.case(("extreme", kind, tuple(case["vals"]), tuple(case["chem"]), case["schedule"]), nontrivial=bool(kept) and detail["samples"] > 1,
+                     sample={"op": "extreme magnitudes", "space": kind, "schedule": case["schedule"], "first": detail["first"][:6], "last": detail["last"][:6]})
+            ctx.count("extreme_runs")
+            ctx.count("extreme_schedule_" + case["schedule"])
+            for cls in case["classes"]:
+                ctx.count("extreme_flagged_" + cls)
+            if not ok:
+                key = "chem-traj:euler" if "chemostated entry" in what else "chem-euler:unflagged"
+                ctx.violation(key, "Euler on a %s, chemostated entries holding extreme quantities (%s): %s" % (kind, case["schedule"], what), case,
+                              impl=detail["last"], expected=detail.get("expected", detail["first"]))
+            if op is not None:
+                ops.append(op[0])
+                meta.append((case, op[1], op[2]))
+    res = ctx.model.run(ops) if ops else []
+    for (case, x0, x1), m in zip(meta, res):
+        if m is None:
+            continue
+        ctx.count("extreme_euler_step_model")
+        if "ok" not in m:
+            ctx.disagree("euler_step", case, x1, m)
+            continue
+        mx = [rparse(v) for v in m["ok"]["x"]]
+        md = [rparse(v) for v in m["ok"]["dxdt"]]
+        good = len(mx) == len(x1)
+        for e in range(len(x1) if good else 0):
+            if case["chem"][e] or md[e] == 0:
+                good = good and math.isfinite(x1[e]) and Fraction(x1[e]) == mx[e]          # the model keeps these entries exactly
+            elif abs(mx[e]) + abs(Fraction(x0[e])) >= Fraction(1, 10 ** 280):
+                good = good and close(x1[e], mx[e], abs(Fraction(x0[e])) + abs(md[e]) / 64, rel=TOL)
+        if not good:
+            ctx.disagree("euler_step", case, x1, m["ok"]["x"])
+
+
+# ------------------------------------------------------------------------------------------------ one engine, one script, edited between runs
+EDIT_KINDS = ["set_chemostat", "set_chemostat", "set_chemostat_label", "item", "item", "array", "reset", "state"]
+
+
+def reuse_case(rng, kind, option):
+    ns, n = rng.choice([2, 3]), rng.choice([2, 3, 4])
+    f = rng.randrange(ns)
+    vals = [float(rng.choice([40, 100, 250, 500])) for _ in range(ns * n)]
+    chem0 = [0] * (ns * n) if rng.random() < 0.5 else [rng.choice([0, 0, 1]) for _ in range(ns * n)]
+    runs = []
+    for r in range(rng.choice([2, 3, 3, 4]) - 1):
+        edits = []
+        for _ in range(rng.choice([1, 1, 2, 3])):
+            ek = rng.choice(EDIT_KINDS)
+            s_, c_ = rng.randrange(ns), rng.randrange(n)
+            if ek in ("set_chemostat", "set_chemostat_label", "item"):
+                # the first edit of a history targets the reactant species half of the time: its free entries certainly move
+                if not edits and rng.random() < 0.5:
+                    s_ = f
+                edits.append({"edit": ek, "s": s_, "c": c_, "v": None})        # v: toggled when applied
+            elif ek == "array":
+                edits.append({"edit": ek, "map": [rng.choice([0, 0, 1]) for _ in range(ns * n)]})
+            elif ek == "reset":
+                edits.append({"edit": ek})
+            else:
+                edits.append({"edit": ek, "s": s_, "c": c_, "value": float(rng.choice([10, 60, 333]))})
+        runs.append(edits)
+    return {"kind": "reuse", "space": kind, "option": option, "ns": ns, "n": n, "flagged_species": f, "product": (f + 1) % ns, "k": 1, "Ds": [1] * ns,
+            "vals": vals, "chem0": chem0, "edits": runs, "seed": rng.randrange(1, 2 ** 31 - 1), "nsteps": 12 if option != "gillespie" else 40,
+            "other_script_between": rng.random() < 0.3}
+
+
+def _reuse_run(eng, script, nsteps):
+    eng.setup(script)
+    k = 0
+    while k < nsteps and eng.iterate():
+        k += 1
+    out = eng.get_output()
+    eng.finalize()
+    return engine_io.samples(out)
+
+
+def reuse_eval(case):
+    """ONE engine object and ONE script object: run, edit the script's system in place through its public interface (set_chemostat
+    by index / label, item assignment into `chemostats`, a whole new map, reset_chemostats, set_state), run again, …  The flags every
+    run must obey are tracked here, independently of the object.  Each run is judged by oracle (i), by the rate law (Euler) and
+    against the same simulation made from scratch (new system, new script, new engine object, same seed).
+    Returns (holds, what, detail, [correspondence ops])"""
+    import strengths as st
+    kind, option, ns, n = case["space"], case["option"], case["ns"], case["n"]
+    desc, phys = mini_system(kind, ns, n, case["flagged_species"], case["product"], case["k"], case["Ds"])
+    labels = L.LABELS[:ns]
+    dt = Fraction(1, 64)
+
+    def fresh(vals, chem):
+        sy = L.build_system(desc)
+        sy.state = list(vals)
+        sy.chemostats = list(chem)
+        return st.RDScript(sy, t_sample=[0], time_step=float(dt), t_max=1e300 if option == "gillespie" else float(dt) * (case["nsteps"] + 2),
+                           sampling_policy="on_iteration", rng_seed=case["seed"])
+
+    vals, chem = list(case["vals"]), list(case["chem0"])
+    script = fresh(vals, chem)
+    eng = common.load_engine(option, "plain")
+    detail, ops = {"runs": []}, []
+    for r in range(len(case["edits"]) + 1):
+        if r > 0:
+            if case.get("other_script_between"):
+                # the same engine object simulates ANOTHER script of the same shape (everything flagged the other way round) in between
+                _reuse_run(eng, fresh(vals, [1 - c for c in chem]), 3)
+            for ed in case["edits"][r - 1]:
+                sy = script.system
+                if ed["edit"] in ("set_chemostat", "set_chemostat_label", "item"):
+                    e = ed["s"] * n + ed["c"]
+                    v = 1 - chem[e]
+                    if ed["edit"] == "set_chemostat":
+                        sy.set_chemostat(ed["s"], ed["c"], v)
+                    elif ed["edit"] == "set_chemostat_label":
+                        sy.set_chemostat(labels[ed["s"]], ed["c"], bool(v))
+                    else:
+                        sy.chemostats[e] = v
+                    chem[e] = v
+                elif ed["edit"] == "array":
+                    sy.chemostats = list(ed["map"])
+                    chem = list(ed["map"])
+                elif ed["edit"] == "reset":
+                    sy.reset_chemostats()
+                    chem = [0] * (ns * n)
+                else:
+                    sy.set_state(ed["s"], ed["c"], ed["value"])
+                    vals[ed["s"] * n + ed["c"]] = ed["value"]
+        ss = _reuse_run(eng, script, case["nsteps"])
+        ref = _reuse_run(common.load_engine(option, "plain"), fresh(vals, chem), case["nsteps"])
+        rec = {"run": r, "chem": list(chem), "first": ss[0][1], "last": ss[-1][1], "samples": len(ss), "from_scratch_last": ref[-1][1]}
+        detail["runs"].append(rec)
+        detail.update(chem=list(chem), first=ss[0][1], last=ss[-1][1], run=r)
+        if option == "euler" and len(ss) >= 2:
+            arr = engine_io.system_arrays(script, False)
+            ops.append(({"op": "euler_step", "eng": engine_io.eng_json(arr, edge=(Fraction(1) if kind == "grid" else [Fraction(1)] * n)),
+                         "x": [rstr(v) for v in ss[0][1]], "dt": rstr(float(dt))}, r, ss[0][1], ss[1][1]))
+        if len(ss) < 2:
+            return False, "run %d recorded %d sample(s)" % (r, len(ss)), detail, ops
+        bad = flagged_constant(ss, chem)
+        if bad:
+            k, e = bad
+            detail.update(sample=k, e=e, expected=ss[0][1][e])
+            return False, ("run %d of the same script on the same engine object (chemostat map now %r): the chemostated entry %d (species %d, cell %d) is %r in "
+                           "sample %d but %r in sample 0" % (r, chem, e, e // n, e % n, ss[k][1][e], k, ss[0][1][e])), detail, ops
+        if option == "euler":
+            bad = euler_free_law(phys, chem, ss, dt)
+            if bad:
+                detail.update(step=bad[0], e=bad[1], expected=bad[3])
+                return False, ("run %d of the same script on the same engine object (chemostat map now %r): the free entry %d is %r in sample %d, "
+                               "x0 + dt*rate(x0) = %r" % (r, chem, bad[1], bad[2], bad[0] + 1, bad[3])), detail, ops
+        if [s_[1] for s_ in ss] != [s_[1] for s_ in ref]:
+            k = next((j for j in range(min(len(ss), len(ref))) if ss[j][1] != ref[j][1]), min(len(ss), len(ref)))
+            detail.update(sample=k, expected=ref[min(k, len(ref) - 1)][1])
+            return False, ("run %d of the same script on the same engine object (chemostat map now %r, seed %d) differs from the same simulation made from "
+                           "scratch from sample %d on: %r vs %r — entries that are not flagged must evolve as the rate law prescribes whatever the "
+                           "objects simulated before" % (r, chem, case["seed"], k, ss[min(k, len(ss) - 1)][1], ref[min(k, len(ref) - 1)][1])), detail, ops
+    return True, None, detail, ops
+
+
+def reuse_with_edits(ctx, rounds):
+    ops, meta = [], []
+    for r in range(rounds):
+        for kind in ("grid", "graph"):
+            for option in ("euler", "tauleap", "gillespie"):
+                case = reuse_case(ctx.rng, kind, option)
+                try:
+                    ok, what, detail, cops = reuse_eval(case)
+                except Exception as ex:  # noqa
+                    ctx.violation("chem-reuse:raises", "%s: a run of an edited script on a re-used engine raised %s" % (option, type(ex).__name__), case,
+                                  impl=type(ex).__name__)
+                    continue
+                maps = [tuple(rr["chem"]) for rr in detail["runs"]]
+                ctx.case(("reuse", kind, option, tuple(case["vals"]), tuple(maps)), nontrivial=len(set(maps)) > 1 and any(any(m) for m in maps),
+                         sample={"op": "one engine, one script, edited between runs", "engine": option, "space": kind, "maps": [list(m) for m in maps],
+                                 "last": detail["last"][:6]})
+                ctx.count("reuse_histories")
+                ctx.count("reuse_runs", len(detail["runs"]))
+                for eds in case["edits"]:
+                    for ed in eds:
+                        ctx.count("reuse_edit_" + ed["edit"])
+                if not ok:
+                    key = ("chem-traj:%s:edited-map" % option) if "chemostated entry" in what else "chem-reuse:%s" % option
+                    ctx.violation(key, "%s on a %s: %s" % (option, kind, what), case, impl=detail["last"], expected=detail.get("expected"))
+                for (op, rr, x0, x1) in cops:
+                    ops.append(op)
+                    meta.append((dict(case, run=rr), x0, x1))
+    res = ctx.model.run(ops) if ops else []
+    for (case, x0, x1), m in zip(meta, res):
+        if m is None:
+            continue
+        ctx.count("reuse_euler_step_model")
+        ok = "ok" in m
+        if ok:
+            mx = [rparse(v) for v in m["ok"]["x"]]
+            md = [rparse(v) for v in m["ok"]["dxdt"]]
+            ok = len(mx) == len(x1) and all(close(a, b, abs(Fraction(c)) + abs(d) / 64, rel=TOL) for a, b, c, d in zip(x1, mx, x0, md))
+        if not ok:
+            ctx.disagree("euler_step", case, x1, m.get("ok", m))
+
+
+
 def run(ctx):
     rng = ctx.rng
     C1.out_of_time(ctx)          # start the harness clock
     two_simulations(ctx)
     source_scenarios(ctx)
+    extreme_magnitudes(ctx, ctx.n(10, 80))
+    reuse_with_edits(ctx, ctx.n(2, 12))
     nsys = ctx.n(30, 500)
     jobs = [flag_dict_job(rng, "grid"), flag_dict_job(rng, "graph"), flagged_substrate_job(ctx, rng)]
     ctx.count("directed_flag_dicts", 2)
@@ -834,6 +1208,16 @@ def run(ctx):
     if jobs:
         process(ctx, jobs)
     ctx.notes.append("flag values other than 0/1 are outside the assumption (make_dxdtf multiplies by 1-flag)")
+
+
+def search(ctx):
+    """an obligation broke and no input failed yet: the directed streams at thorough size (extreme quantities in chemostated
+    entries; one engine and one script edited between runs; the source / sink scenarios and the two-simulation histories again)"""
+    extreme_magnitudes(ctx, 80)
+    if ctx.violations:
+        return
+    reuse_with_edits(ctx, 10)
+    source_scenarios(ctx)
 
 
 def process(ctx, jobs):
@@ -856,6 +1240,14 @@ def replay(ctx, rec):
     case = rec.get("case", rec)
     if case["kind"] == "scenario":
         return replay_scenario(case)
+    if case["kind"] == "extreme":
+        ok, what, detail, _ = extreme_eval(case)
+        detail["failure"] = what
+        return ok, detail
+    if case["kind"] == "reuse":
+        ok, what, detail, _ = reuse_eval(case)
+        detail["failure"] = what
+        return ok, detail
     if case["kind"] == "two-sim":
         import json as _json
         so = common.build_engine("plain")
